@@ -213,6 +213,43 @@ class RandomChooser:
         return self.rng.choices(range(len(acts)), weights=w)[0]
 
 
+class PCTChooser:
+    """Priority-based schedules (after Burckhardt et al., "A randomized scheduler with probabilistic guarantees of
+    finding bugs"): every process gets a random priority when first seen; the enabled process of highest priority
+    runs; at `depth - 1` random steps the running process is demoted below all others; a process that takes a
+    non-progress action (a queue time-out) yields, i.e. is demoted too.  Finds ordering bugs that need one process to
+    be suspended at a specific point while another runs a long stretch — rare under uniform random choice."""
+
+    def __init__(self, seed, depth=3, horizon=400, timeout_prob=0.5):
+        self.rng = random.Random(seed)
+        self.prio = {}
+        self.low = 0.0
+        self.step = 0
+        self.changes = set(self.rng.randrange(horizon) for _ in range(max(depth - 1, 0)))
+        self.tp = timeout_prob
+
+    def _demote(self, proc):
+        self.low -= 1.0
+        self.prio[id(proc)] = self.low
+
+    def choose(self, acts, sim):
+        self.step += 1
+        for a in acts:
+            if id(a.proc) not in self.prio:
+                self.prio[id(a.proc)] = self.rng.random()
+        best = max(self.prio[id(a.proc)] for a in acts)
+        mine = [i for i, a in enumerate(acts) if self.prio[id(a.proc)] == best]
+        prog = [i for i in mine if acts[i].progress]
+        idle = [i for i in mine if not acts[i].progress]
+        if prog and (not idle or self.rng.random() >= self.tp):
+            i = self.rng.choice(prog)
+        else:
+            i = self.rng.choice(idle or mine)
+        if not acts[i].progress or self.step in self.changes:
+            self._demote(acts[i].proc)
+        return i
+
+
 class ReplayChooser:
     def __init__(self, choices, then=None):
         self.choices, self.k, self.then = list(choices), 0, then
